@@ -700,7 +700,7 @@ func (t *Target) generateMetaUpdates(clients func(*ctree.Leaf)) {
 		}
 		path := metadata.Path(value)
 		prev := t.t.GetLeafValue(path)
-		if prev == nil || prev.(*pb.Notification).Update[0].Val.Value.(*pb.TypedValue_BoolVal).BoolVal != v {
+		if pv, ok := metaVal(prev).(*pb.TypedValue_BoolVal); !ok || pv.BoolVal != v {
 			noti := metaNotiBool(t.name, value, v)
 			if n, _ := t.gnmiUpdate(noti); n != nil {
 				if clients != nil {
@@ -720,7 +720,7 @@ func (t *Target) generateMetaUpdates(clients func(*ctree.Leaf)) {
 		}
 		path := metadata.Path(value)
 		prev := t.t.GetLeafValue(path)
-		if prev == nil || prev.(*pb.Notification).Update[0].Val.Value.(*pb.TypedValue_IntVal).IntVal != v {
+		if pv, ok := metaVal(prev).(*pb.TypedValue_IntVal); !ok || pv.IntVal != v {
 			noti := metaNotiInt(t.name, value, v)
 			if n, _ := t.gnmiUpdate(noti); n != nil {
 				if clients != nil {
@@ -740,7 +740,7 @@ func (t *Target) generateMetaUpdates(clients func(*ctree.Leaf)) {
 		}
 		path := metadata.Path(value)
 		prev := t.t.GetLeafValue(path)
-		if prev == nil || prev.(*pb.Notification).Update[0].Val.Value.(*pb.TypedValue_StringVal).StringVal != v {
+		if pv, ok := metaVal(prev).(*pb.TypedValue_StringVal); !ok || pv.StringVal != v {
 			noti := metaNotiStr(t.name, value, v)
 			if n, _ := t.gnmiUpdate(noti); n != nil {
 				if clients != nil {
@@ -749,6 +749,16 @@ func (t *Target) generateMetaUpdates(clients func(*ctree.Leaf)) {
 			}
 		}
 	}
+}
+
+// metaVal returns the typed value stored in a metadata leaf, or nil if the
+// leaf is absent or does not hold a single-update notification.
+func metaVal(prev interface{}) interface{} {
+	n, ok := prev.(*pb.Notification)
+	if !ok || len(n.GetUpdate()) == 0 {
+		return nil
+	}
+	return n.GetUpdate()[0].GetVal().GetValue()
 }
 
 // Reset clears the Target of stale data upon a reconnection and notifies
